@@ -130,10 +130,11 @@ BC = dict(name='BlobCache.Consume', probe='k20b', fam=['bc'], quick=1500, thorou
           extra=['bc'], nontrivial=nt_has('bc'), rule='tree-diff histories with randomly removed blob objects')
 
 RN = dict(name='RenameAnalysis.Consume stage 1 (hash scan)', probe='krn', fam=['rn'], quick=40000, thorough=1000000,
-          nontrivial=lambda ops, impl: ops[0].startswith('scan') and 'm:-' not in impl[0],
+          nontrivial=lambda ops, impl: (ops[0].startswith('scan') and 'm:-' not in impl[0]) or (ops[0].startswith('rn2') and not ops[0].endswith(' -')),
           rule='change sets of 1-9 adds/deletes/modifications over 2-7 contents; even cases all blobs < 32 bytes '
                '(output = stage-1 scan, compared with Rn.scan), odd cases sizes around 32 B and the similarity window, '
-               'thresholds 0-100, 1/8 with a 1 ns timeout (oracle only); non-trivial = at least one exact rename')
+               'thresholds 0-100, 1/8 with a 1 ns timeout: every reported rename is replayed by Rn.applyMatches (legal pair, '
+               'leftovers, exact-rename count per hash); non-trivial = at least one exact rename')
 E01 = dict(name='end-to-end: real Pipeline.Run + BurndownAnalysis vs line-lifetime ground truth', probe='e01', fam=None,
            quick=4000, thorough=400000,
            nontrivial=lambda ops, impl: '],[' in ops[0] and ',' in ops[0].split('"Parents":')[1].split(']]')[0].replace('],[', ' ').split(' ')[-1],
